@@ -1,7 +1,7 @@
 (** C05 — Indicator raw values equal the documented formulas (theorems added per indicator). *)
 From Yata Require Import Base.Prelude Base.Num Base.NumR Core.Window Core.Candle Core.Action
   Spec.Hist Spec.MethodDefs Spec.IndicatorDefs Methods.Basic Methods.Select Indicators.Common Indicators.Set1 Indicators.Set2 Indicators.Set3 Indicators.Set4 Indicators.Set5
-  Proofs.IndicatorProofs Proofs.IndicatorProofs2 Proofs.IndicatorProofs3 Proofs.IndicatorProofs4 Proofs.IndicatorProofs5 Proofs.IndicatorProofs6 Proofs.IndicatorProofs7 Proofs.IndicatorProofs8 Proofs.IndicatorProofs9 Proofs.IndicatorProofs10 Proofs.Windowed5 Proofs.MAProofs.
+  Proofs.IndicatorProofs Proofs.IndicatorProofs2 Proofs.IndicatorProofs3 Proofs.IndicatorProofs4 Proofs.IndicatorProofs5 Proofs.IndicatorProofs6 Proofs.IndicatorProofs7 Proofs.IndicatorProofs8 Proofs.IndicatorProofs9 Proofs.IndicatorProofs10 Proofs.IndicatorProofs11 Proofs.IndicatorProofs12 Proofs.IndicatorProofs13 Proofs.IndicatorProofs14 Proofs.IndicatorProofs15 Proofs.IndicatorProofs16 Proofs.Windowed5 Proofs.MAProofs.
 From Coq Require Import Reals.
 Open Scope Z_scope.
 
@@ -145,4 +145,60 @@ Theorem C05_hull_moving_average period lft right src (c0 : C) cs c :
     [hma_def (Z.to_nat period) (Z.to_nat (period / 2)) (Z.to_nat (hma_len3 period))
        (hget (c_source c0 src) (srcs src (rev (cs ++ [c]))))].
 Proof. exact (hull_indicator_values_correct period lft right src c0 cs c). Qed.
+Theorem C05_awesome_oscillator (cfg : ao_cfg) (c0 : C) cs c : ao_validate cfg = true ->
+  oc_left cfg + oc_right cfg <= pmax - 2 -> ma_len_ok (oc_ma1 cfg) -> ma_len_ok (oc_ma2 cfg) ->
+  exists s0, ao_init (N := NumR) cfg c0 = Ok s0 /\
+    fst (snd (ao_next (steps ao_next s0 cs) c)) =
+    let s0' := c_source c0 (oc_source cfg) in let rs := srcs (oc_source cfg) (rev (cs ++ [c])) in
+    [fsub (ma_def (oc_ma2 cfg) s0' rs) (ma_def (oc_ma1 cfg) s0' rs)].
+Proof. exact (awesome_oscillator_values_correct cfg c0 cs c). Qed.
+Theorem C05_smi_ergodic p1 p2 (signal : ma_cfg) (zone : @F NumR) src (c0 : C) cs c :
+  1 < p2 <= p1 -> p1 < pmax -> 1 < ma_period signal < pmax -> (0 <= zone <= 1)%R -> ma_len_ok signal ->
+  exists s0, smi_init p1 p2 signal zone src c0 = Ok s0 /\
+    fst (snd (smi_next (steps smi_next s0 cs) c)) =
+    let s0' := c_source c0 src in let rs := srcs src (rev (cs ++ [c])) in
+    let t := tsi_line p2 p1 s0' rs in let sg := ma_def signal f0 (series (tsi_line p2 p1 s0') rs) in
+    [t; sg; fsub t sg].
+Proof. exact (smi_values_correct p1 p2 signal zone src c0 cs c). Qed.
+Theorem C05_woodies_cci p1 p2 lag src (c0 : C) cs c : 1 <= p1 -> p1 < p2 -> p2 < pmax -> 0 < lag < pmax ->
+  exists s0, wcci_init p1 p2 lag src c0 = Ok s0 /\
+    fst (snd (wcci_next (steps wcci_next s0 cs) c)) =
+    let h := hget (c_source c0 src) (srcs src (rev (cs ++ [c]))) in
+    [fmul (cci_def (Z.to_nat p1) h) cci_scale; fmul (cci_def (Z.to_nat p2) h) cci_scale].
+Proof. exact (woodies_cci_values_correct p1 p2 lag src c0 cs c). Qed.
+Theorem C05_ease_of_movement (ma : ma_cfg) p2 (c0 : C) cs c : 1 < ma_period ma < pmax -> 1 <= p2 < pmax -> ma_len_ok ma ->
+  exists s0, eom_init ma p2 c0 = Ok s0 /\
+    fst (snd (eom_next (steps eom_next s0 cs) c)) = [ma_def ma f0 (series (eom_raw p2 c0) (rev (cs ++ [c])))].
+Proof. exact (eom_values_correct ma p2 c0 cs c). Qed.
+Theorem C05_relative_vigor_index p1 p2 (signal : ma_cfg) (zone : @F NumR) (c0 : C) cs c :
+  2 <= p1 <= pmax - 1 -> 2 <= p2 <= pmax - 1 -> 1 < ma_period signal -> (0 <= zone < 1 / 2)%R -> ma_len_ok signal ->
+  exists s0, rvi_init p1 p2 signal zone c0 = Ok s0 /\
+    fst (snd (rvi_next (steps rvi_next s0 cs) c)) = rvi_values p1 p2 signal c0 (rev (cs ++ [c])).
+Proof. exact (rvi_values_correct p1 p2 signal zone c0 cs c). Qed.
+Theorem C05_chande_kroll_stop (ma : ma_cfg) (x : @F NumR) q src (c0 : C) cs c :
+  (0 <= x)%R -> 1 <= ma_period ma <= pmax - 1 -> 1 <= q <= pmax - 1 -> ma_len_ok ma ->
+  exists s0, cks_init ma x q src c0 = Ok s0 /\
+    fst (snd (cks_next (steps cks_next s0 cs) c)) = cks_values ma x q c0 src (rev (cs ++ [c])).
+Proof. exact (cks_values_correct ma x q src c0 cs c). Qed.
+Theorem C05_kaufman (cfg : kauf_cfg (N := NumR)) (c0 : C) cs c : kauf_validate cfg = true ->
+  kf_p1 cfg <= pmax - 1 -> 2 <= kf_filter cfg <= pmax - 1 ->
+  exists s0, kauf_init cfg c0 = Ok s0 /\
+    fst (snd (kauf_next (steps kauf_next s0 cs) c)) =
+    [kama cfg (c_source c0 (kf_source cfg)) (srcs (kf_source cfg) (rev (cs ++ [c])))].
+Proof. exact (kaufman_values_correct cfg c0 cs c). Qed.
+(** filter_period 0 and 1 are documented and pass validate, but no instance can be built with them (StDev::new rejects them) *)
+Theorem C05_kaufman_small_filter_rejected (cfg : kauf_cfg (N := NumR)) (c0 : C) :
+  0 <= kf_filter cfg <= 1 -> forall s, kauf_init cfg c0 <> Ok s.
+Proof. exact (kaufman_small_filter_rejected cfg c0). Qed.
+Theorem C05_trend_strength_index period (zone : @F NumR) offset src (c0 : C) cs c :
+  1 < period < pmax -> (0 <= zone < 1)%R -> 0 < offset < period -> 4 < pmax ->
+  exists s0, tsx_init period zone offset src c0 = Ok s0 /\
+    fst (snd (tsx_next (steps tsx_next s0 cs) c)) =
+    [tsx_def period (hget (c_source c0 src) (srcs src (rev (cs ++ [c]))))].
+Proof. exact (trend_strength_values_correct period zone offset src c0 cs c). Qed.
+Theorem C05_average_directional_index (cfg : adx_cfg (N := NumR)) (c0 : C) cs c : adx_validate cfg = true ->
+  ma_len_ok (ac_m1 cfg) -> ma_len_ok (ac_m2 cfg) ->
+  exists s0, adx_init cfg c0 = Ok s0 /\
+    fst (snd (adx_next (steps adx_next s0 cs) c)) = adx_values cfg c0 (rev (cs ++ [c])).
+Proof. exact (adx_values_correct cfg c0 cs c). Qed.
 End C05.
